@@ -32,6 +32,7 @@ from c01c02_common import fbits, bitsf, fr, Batch
 ST = {0: "c", 1: "o", 2: "a"}
 STN = {"c": "closed", "o": "opened", "a": "active"}
 ZERO9 = " ".join(["0/1"] * 9)
+GAP_TOL = 1e-4  # m: allowed distance between the code's fitted pump curve and the independent fit to the curve points
 
 
 def ref_fit(points):
@@ -118,21 +119,38 @@ class C02(Check):
                                         "%d-point pump curve %r: get_head_curve_coefficients returns (A,B,C)=%r, the documented fit is %r; "
                                         "A - B*Q^C misses a curve point by %r m" % (n, pts, (A, B, Cc), (rA, rB, rC), worst),
                                         dict(rp, link=link.name, observed=[A, B, Cc], expected=[rA, rB, rC])))
+            ref = (rA, rB, rC)
         else:
+            # 3+ points: the fitted curve is judged against the curve POINTS through an independent least-squares fit
+            # (three points: the interpolant).  Unchanged tree over 300 random curves: max gap 2.0e-6 m -> GAP_TOL = 1e-4 m.
+            key = tuple(map(tuple, pts))
+            if key not in self._refcache:
+                self._refcache[key] = C.ref_fit_points(pts)
+            rA, rB, rC, rsse = self._refcache[key]
+            ref = (rA, rB, rC)
+            q0, q1 = pts[0][0], pts[-1][0]
+            grid = [q0 + (q1 - q0) * i / 20.0 for i in range(21)]
+            gap = max(abs((A - B * q ** Cc) - (rA - rB * q ** rC)) for q in grid)
             worst = max(abs((A - B * q ** Cc) - h) for q, h in pts)
-            self.fit3 = max(self.fit3, worst)
-            # three points, three coefficients: the least-squares fit is an interpolation (observed residual <= 3e-14 m)
-            if n == 3 and worst > 1e-6 * (1.0 + abs(pts[0][1])) and not any(f.key == "head-pump-3pt-curve-fit" for f in failures):
-                failures.append(Failure("head-pump-3pt-curve-fit",
-                                        "3-point pump curve %r: fitted (A,B,C)=%r misses a curve point by %r m" % (pts, (A, B, Cc), worst),
-                                        dict(rp, link=link.name, observed=worst, expected=0.0)))
+            self.fit3 = max(self.fit3, gap)
+            fkey = "head-pump-3pt-curve-fit" if n == 3 else "head-pump-multipoint-curve-fit"
+            if gap > GAP_TOL and not any(f.key == fkey for f in failures):
+                failures.append(Failure(fkey,
+                                        "%d-point pump curve %r: get_head_curve_coefficients returns (A,B,C)=%r; the least-squares fit of H = A - B*Q^C to the "
+                                        "points is %r; the two curves differ by %r m on the curve's flow range, the code's curve misses a point by %r m "
+                                        "(best fit: %r m)" % (n, pts, (A, B, Cc), ref, gap, worst, math.sqrt(rsse)),
+                                        dict(rp, link=link.name, observed=[A, B, Cc], expected=list(ref))))
         pcb = self._pump_consts(wntr)
         z = 0.0
-        if Cc <= 1:
-            a, b, c, d = constraint.get_pump_poly_coefficients(A, B, Cc, pcb)
-            return (A, B, Cc, a, b, c, d, z, z)
-        qb, hb = constraint.get_pump_line_params(A, B, Cc, pcb)
-        return (A, B, Cc, z, z, z, z, qb, hb)
+        def full(A, B, Cc):
+            if Cc <= 1:
+                a, b, c, d = constraint.get_pump_poly_coefficients(A, B, Cc, pcb)
+                return (A, B, Cc, a, b, c, d, z, z)
+            qb, hb = constraint.get_pump_line_params(A, B, Cc, pcb)
+            return (A, B, Cc, z, z, z, z, qb, hb)
+
+        self._refcoef[link.name] = full(*ref)
+        return full(A, B, Cc)
 
     def _row_line(self, spec, l, status, iso, tol, f, hs, he, setting, elev, coef):
         kind = C.link_kind(l)
@@ -324,10 +342,11 @@ class C02(Check):
         wn = cap["wn"]
         elev = {nd["name"]: nd.get("elevation", 0.0) for nd in spec["nodes"] if nd["type"] == "junction"}
         kinds = {nd["name"]: nd["type"] for nd in spec["nodes"]}
-        coefs = {}
+        coefs, refco = {}, {}
         for l in spec["links"]:
             if C.link_kind(l) == "headPump":
                 coefs[l["name"]] = self._pump_coef(wntr, wn.get_link(l["name"]), spec["curves"][l["curve"]], failures, {"spec": spec})
+                refco[l["name"]] = self._refcoef[l["name"]]
         ctx.count("sim_ok")
         ctx.count("steps", len(tb.times))
         for k, t in enumerate(tb.times):
@@ -372,6 +391,21 @@ class C02(Check):
                                                 dict(rp, observed=r, expected=0.0)))
 
                 batch.add(line, cb)
+                if kind == "headPump" and st == "o" and f > 1e-6 and name in refco:
+                    # the reported operating point against the curve fitted to the curve POINTS (independent fit)
+                    line2 = self._row_line(spec, l, st, False, tol + GAP_TOL, f, hs, he, setting, elev, refco[name])
+
+                    def cb3(o, name=name, t=t, f=f, hs=hs, he=he, rp=rp, l=l, pts=spec["curves"][l["curve"]], rc=refco[name]):
+                        ok, r = o.split()
+                        ctx.count("pump_vs_points")
+                        if ok != "ok":
+                            failures.append(Failure("head-pump-off-fitted-curve",
+                                                    "open head pump %s t=%d: flow %r, head gain %r; the curve H = A - B*Q^C fitted to its points %r "
+                                                    "(A,B,C = %r) gives %r at that flow (difference %r m)"
+                                                    % (name, t, f, he - hs, pts, rc[:3], rc[0] - rc[1] * f ** rc[2], bitsf(r)),
+                                                    dict(rp, observed=he - hs, expected=rc[0] - rc[1] * f ** rc[2])))
+
+                    batch.add(line2, cb3)
                 if st != "c" and (kind in ("headPump", "powerPump") or cv):
                     key = "head-pump-reverse-flow" if kind == "headPump" else "power-pump-reverse-flow" if kind == "powerPump" else "cv-pipe-reverse-flow"
 
@@ -401,6 +435,7 @@ class C02(Check):
     def correspondence(self, ctx):
         wntr = vlib.import_wntr()
         self.max_ratio, self.fit3 = {}, 0.0
+        self._refcache, self._refcoef = {}, {}
         failures, broken = [], []
         if not hasattr(self, "info"):
             self.info = T.gen_c02(wntr)[1]
@@ -410,7 +445,7 @@ class C02(Check):
         broken += self._conditions(ctx, wntr)
         broken += self._smoothing(ctx, wntr)
         corpus = [c["spec"] for _, c in vlib.corpus_items(self.pid) if "spec" in c]
-        specs = corpus + C.gen_specs(ctx, 30 if ctx.quick else 400, 18 if ctx.quick else 108)
+        specs = corpus + C.gen_specs(ctx, 30 if ctx.quick else 400, 20 if ctx.quick else 120)
         f, b = self._static_rows(ctx, wntr, specs[: (26 if ctx.quick else 250)])
         failures += f
         broken += b
@@ -418,15 +453,16 @@ class C02(Check):
         failures += f
         broken += b
         ctx.cov["max_residual_over_tolerance"] = {k: round(v, 6) for k, v in self.max_ratio.items()}
-        ctx.cov["max_3pt_fit_residual_m"] = self.fit3
+        ctx.cov["max_gap_code_fit_vs_point_fit_m"] = self.fit3
         ctx.cov["tolerance"] = "|row| <= %g + %g*(|hs|+|he|+|P|+|q|+|setting| (+|dh*q*9810| for power pumps)); reverse flow >= -2.83168e-6" % (C.TOL, C.SLACK)
         return failures, broken
 
     def search(self, ctx, broken):
         wntr = vlib.import_wntr()
         self.max_ratio, self.fit3 = {}, 0.0
+        self._refcache, self._refcoef = {}, {}
         corpus = [c["spec"] for _, c in vlib.corpus_items(self.pid) if "spec" in c]
-        f, b = self._run_specs(ctx, wntr, corpus + C.gen_specs(ctx, 60, 36))
+        f, b = self._run_specs(ctx, wntr, corpus + C.gen_specs(ctx, 60, 40))
         return f
 
     def replay(self, ctx, path):
@@ -438,6 +474,7 @@ class C02(Check):
             return 0
         wntr = vlib.import_wntr()
         self.max_ratio, self.fit3 = {}, 0.0
+        self._refcache, self._refcoef = {}, {}
         fs, bs = self._run_specs(ctx, wntr, [rp["spec"]])
         hit = [f for f in fs if f.key == r.get("key")]
         print("replay: %s" % ("REPRODUCED " + hit[0].what if hit else "not reproduced on the current tree"))
